@@ -9,7 +9,7 @@ ENTRY = {'coq_dir': 'C09',
  'consts': [],
  'nontrivial_min_trace': 40,
  'rule': '`cases` real-time schedules (T = 100/300/500 ms, ops on a 200 ms grid so that every keep-alive deadline is 100 ms away from every poll; '
-         "6-14 ops: establish, open, answer, inbound substream, drop substream, other protocols' senders, close, idle polls; keep-alive and "
+         "6-14 ops: establish, open, answer, inbound substream, drop substream, shut down the write half of a held substream (tcp::Substream::poll_shutdown) and keep holding it, other protocols' senders, close, idle polls; keep-alive and "
          'non-keep-alive protocol; a run whose steps drifted > 45 ms from the grid is repeated) plus 2*cases untimed reference-counting histories, '
          'all against a real TransportService; compared per op with the extracted model: events, Active->Inactive flips, handle active flags, '
          'tracked keys, number of armed sleeps, per channel whether a strong sender exists (= the connection task keeps running)',
@@ -24,7 +24,7 @@ ENTRY = {'coq_dir': 'C09',
                'old, and at exactly last + T when the step does not jump over a due time; after every poll nothing tracked is overdue and (feasible '
                'histories) every Active handle has an activity less than T ago; substreams of a non-keep-alive protocol move no time and re-activate '
                "nothing; a permit in flight or a live keep-alive substream keeps the channel's strong count positive, and with none of them and no "
-               'other protocol it is zero. Tied to the code by a real-time differential run.',
+               'other protocol it is zero; half-closing a held substream (write half shut down, still read) releases nothing. Tied to the code by a real-time differential run.',
  'level_note': 'Partial for real time: timer accuracy, executor latency and tokio channel semantics are assumptions; the end-to-end close of the TCP '
                'connection task (handle_protocol_command(None)) is not exercised. The single-sleep theorem needs the per-connection FIFO assumption '
                '(a counterexample without it is proved).',
